@@ -176,7 +176,7 @@ def loader_fn(prog):
             + b.strip()[1:].rstrip()[:-1] + "\n}\n")
 
 
-def add_loader_unit(plan, prop, prog, sect, decode_items):
+def add_loader_unit(plan, prop, prog, sect, decode_items, model2):
     obs = {
         "load_program_from_reader": plan.ob("%s.verus.load_program_from_reader.total_no_panic_bounded_alloc" % prop, "verus", "proved", functions=["load_program_from_reader", "section_in_file"],
                                             what="for EVERY file content the loader terminates, has no arithmetic overflow / underflow, and every buffer it allocates (vec![0u8; n], resize) "
@@ -189,7 +189,7 @@ def add_loader_unit(plan, prop, prog, sect, decode_items):
         blk = sect[m.start():match_brace(sect, m.end() - 1)]
         tsig, tbody = extract_fn(blk, "from_u16")
         items = list(decode_items[:-1])     # model, OpCode, DecodedInstr, decode_instructions (without its canary)
-        items += [_struct(sect, "ByteCodeHeader"), _enum(sect, "TypeTag"), "impl TypeTag {\n%s %s\n}\n" % (tsig.strip(), tbody), _struct(sect, "TypeEntry"),
+        items += [model2, _struct(sect, "ByteCodeHeader"), _enum(sect, "TypeTag"), "impl TypeTag {\n%s %s\n}\n" % (tsig.strip(), tbody), _struct(sect, "TypeEntry"),
                   _struct(prog, "ParsedConstEntry"), section_in_file_fn(prog), parse_const_entries_fn(prog), loader_fn(prog),
                   vlib.verus_canary("canary_loader", "x: u64", [])]
         text = vlib.verus_file(items, prelude="use std::collections::HashMap;\nuse std::collections::HashSet;\n")
@@ -212,11 +212,14 @@ def add_units(plan, prop="C07"):
         m = find_code(sect, r"impl\s+OpCode\s*\{")
         blk = sect[m.start():match_brace(sect, m.end() - 1)]
         sig, body = extract_fn(blk, "from_u8")
-        items = [open(MODEL).read(), _enum(sect, "OpCode"), "impl OpCode {\n%s %s\n}\n" % (sig.strip(), body), _enum(prog, "DecodedInstr"), decode_fn(prog),
+        model = open(MODEL).read()
+        part1, part2 = model.split("// ---- the reader", 1)
+        part2 = "// ---- the reader" + part2
+        items = [part1, _enum(sect, "OpCode"), "impl OpCode {\n%s %s\n}\n" % (sig.strip(), body), _enum(prog, "DecodedInstr"), decode_fn(prog),
                  vlib.verus_canary("canary_decode", "x: u64", [])]
         u = vlib.VerusUnit("c07_decode_instructions", vlib.verus_file(items), {"decode_instructions": ob.name}, ["canary_decode"])
         plan.verus.append(u)
-        add_loader_unit(plan, prop, prog, sect, items)
+        add_loader_unit(plan, prop, prog, sect, items, part2)
         plan.dropped.append(__doc__.split("Transcription", 1)[1].strip())
         plan.assumptions.append("std::io::Cursor<&[u8]> and byteorder::ReadBytesExt behave as contracts/C07/curmodel.rs (a read succeeds iff enough bytes remain and advances the position; decoded values unspecified); usize is 64 bits")
     except Exception as e:
